@@ -13,6 +13,11 @@
  * was doing (a concrete hang).  Built with -fsanitize=thread, ThreadSanitizer reports data races.
  * Application-side shared data uses atomics so that every report concerns the library.
  *
+ *   h_lock_stress errpaths
+ * Error paths of API functions that take the lock themselves: a call that FAILS must leave the
+ * lock released.  coap_new_context(&addr) with an address that cannot be bound fails; a second
+ * thread then makes an ordinary API call and must return (3 s watchdog).
+ *
  * output (stdout): one summary line  "stress ok ops=.. sent=.. responses=.. ..." or
  *                  "STUCK ..." lines followed by "stress FAILED".   exit code 0 / 3.
  */
@@ -232,7 +237,9 @@ static void op_resource(worker_t *w, unsigned k) {
   key.s = (const uint8_t *)name;
   key.length = strlen(name);
   coap_resource_t *f = coap_get_resource_from_uri_path(ctx, &key);
-  if (f) coap_delete_resource(ctx, f);
+  /* both documented call forms: the context argument is ignored by the library
+     (man coap_resource: examples call coap_delete_resource(NULL, r)) */
+  if (f) coap_delete_resource((k & 4) ? ctx : NULL, f);
   atomic_fetch_add(&n_res, 1);
 }
 
@@ -366,7 +373,50 @@ static int watchdog(double until, int need_finished) {
   }
 }
 
+static atomic_int ep_done;
+static void *errpaths_other(void *arg) {
+  (void)arg;
+  coap_context_t *c = coap_new_context(NULL);     /* takes the global lock */
+  if (c) coap_free_context(c);
+  atomic_store(&ep_done, c ? 1 : 2);
+  return NULL;
+}
+
+static int errpaths(void) {
+  coap_address_t bad;
+  coap_startup();
+  coap_set_log_level(COAP_LOG_EMERG);
+  coap_address_init(&bad);
+  bad.addr.sin.sin_family = AF_INET;
+  bad.addr.sin.sin_addr.s_addr = htonl(0xC0000201u);   /* 192.0.2.1 (TEST-NET-1): not a local address */
+  bad.addr.sin.sin_port = htons(5683);
+  bad.size = sizeof(struct sockaddr_in);
+  coap_context_t *c = coap_new_context(&bad);
+  if (c) {                                           /* could be bound after all: nothing to test */
+    coap_free_context(c);
+    printf("errpaths ok skipped (address was bindable)\n");
+    return 0;
+  }
+  pthread_t th;
+  pthread_create(&th, NULL, errpaths_other, NULL);
+  double t0 = now_s();
+  while (!atomic_load(&ep_done) && now_s() - t0 < 3.0) usleep(20 * 1000);
+  if (!atomic_load(&ep_done)) {
+    printf("STUCK coap_new_context(&unbindable address) returned NULL and left the global lock held: "
+           "coap_new_context(NULL) in a second thread has been waiting for %.1f s\n", now_s() - t0);
+    dump_lock();
+    printf("stress FAILED stuck errpaths\n");
+    fflush(stdout);
+    _exit(3);
+  }
+  pthread_join(th, NULL);
+  coap_cleanup();
+  printf("errpaths ok failed_call_released_lock=1 second_thread=%d\n", atomic_load(&ep_done));
+  return 0;
+}
+
 int main(int argc, char **argv) {
+  if (argc > 1 && strcmp(argv[1], "errpaths") == 0) return errpaths();
   double secs = argc > 1 ? atof(argv[1]) : 5.0;
   nworkers = argc > 2 ? atoi(argv[2]) : 4;
   unsigned seed = argc > 3 ? (unsigned)atoi(argv[3]) : 1;
